@@ -222,7 +222,7 @@ class _Layout:
   def __init__(self, grid):
     self.modal_shape = tuple(int(s) for s in grid.modal_shape)
     self.L = int(grid.total_wavenumbers)
-    self.mask = np.asarray(grid.mask).astype(bool)
+    self.mask = gen.independent_mask(grid).astype(bool)
     self.outside = ~self.mask
     top = np.zeros(self.modal_shape, bool)
     top[:, self.L - 1:] = True     # the clipped top total wavenumber and the padding behind it
